@@ -30,7 +30,7 @@ i = s.index("| Seeded change | needs |")
 j = s.index("\n\n", i)
 s = s[:i] + table.rstrip("\n") + s[j:]
 open(dp, "w").write(s)
-bad = [r for r in rows if "MISSED" in r or "ERROR" in r or "?" in r.split("|")[-2]]
+bad = [r for r in rows if any(w in r.split("|")[-2] for w in ("MISSED", "ERROR", "?"))]
 print("%d rows, all confirmed: %s, not caught: %d" % (n, allc, len(bad)))
 for r in bad:
     print(r[:200])
